@@ -35,6 +35,9 @@ Definition glatents (s : gst) (t : Z) : list event :=
   | PWaitThread _ _ => [ev0 DV_LOAD MO_PLAIN OFF_THREAD (thread s) (thread s)]
   | PWaitG _ => [evg DVG_WAITRET 0; evg DVG_WAITRET 1]
   | PNotifyG => [evg DVG_NOTIFY 0]
+  | PDtorPerf => [ev0 DV_LOAD MO_PLAIN OFF_PERF (performed s) (performed s)]
+  | PDtorPost => [ev0 DV_LOAD MO_PLAIN OFF_QUEUE (queue s) (queue s)]
+  | PDtorRel => [ev0 DVQ_RELEASE2 0 0 0 0]
   | _ => []
   end.
 
@@ -66,7 +69,10 @@ Fixpoint remove_first (t : Z) (l : list Z) : list Z :=
   match l with [] => [] | x :: r => if x =? t then r else x :: remove_first t r end.
 
 (* every thread performs the latent steps that its next recorded event needs, as soon as they are possible; a thread
-   with nothing left goes back to PIdle when it can *)
+   with nothing left goes back to PIdle when it can.  The threads are visited in the order of their next recorded events
+   (sched passes the preferred order): the entry of a worker into _dispatch_block_async_invoke2 consumes a queued
+   submission (Block.pendsub), and when submissions are scarce the worker whose first recorded event comes first must
+   get it. *)
 Fixpoint settle (s : gst) (qs : list (Z * list event)) (ths : list Z) (nl : Z) : gst * Z :=
   match ths with
   | [] => (s, nl)
@@ -95,7 +101,7 @@ Fixpoint pick (s : gst) (qs : list (Z * list event)) (ord : list Z) (seen : list
 
 Fixpoint sched (fuel : nat) (w : nat) (ths : list Z) (s : gst) (qs : list (Z * list event)) (ord : list Z) (done nl : Z)
   : gst * Z * Z * list Z * list (Z * list event) :=
-  let '(s0, nl0) := settle s qs ths nl in
+  let '(s0, nl0) := settle s qs (nodup Z.eq_dec (ord ++ ths)) nl in
   match fuel with
   | O => (s0, done, nl0, ord, qs)
   | S f =>
